@@ -39,6 +39,13 @@ pub fn bytes_pool(seed: u64) -> Vec<Vec<u8>> {
     for i in seed_ints(seed).into_iter().take(2) {
         v.push(i.to_le_bytes()[..3].to_vec());
     }
+    // long values sharing a long prefix (lengths around the widths of vector registers and counters)
+    for l in [16usize, 64, 65, 300] {
+        v.push(vec![b'a'; l]);
+        let mut t = vec![b'a'; l];
+        t[l - 1] = b'b';
+        v.push(t);
+    }
     v
 }
 
